@@ -119,6 +119,73 @@ class PrefixStability(Lane):
         return [{'frame': bvs(fr), 'trail': bvs([rng.randrange(256) for _ in range(self.ntrail)])} for _ in range(3)]
 
 
+
+class LargeFrame(PrefixStability):
+    """a frame larger than the read buffer's initial capacity (8 KiB) and larger than 64 KiB, followed by the first
+    bytes of the next message: delivered once, consumes exactly itself, the following bytes stay; proper prefixes
+    (a few cut points incl. around 8192) say need-more.  Content: one symbolic byte repeated (the decoder never
+    looks inside an OCTET STRING), head and tail bytes individually symbolic."""
+    name = 'C06.large_frame'
+
+    def __init__(self, ctx, size, ntrail):
+        Lane.__init__(self, ctx, size, ntrail); self.size = size; self.ntrail = ntrail; self.skel = 0; self.form = 'min'
+
+    def inputs(self):
+        fill = z3.BitVec('fill', 8)
+        text = [z3.BitVec(f'h{i}', 8) for i in range(4)] + [fill] * (self.size - 8) + [z3.BitVec(f't{i}', 8) for i in range(4)]
+        op = [bv(0x61, 8)] + ber.len_octets(6 + len(ber.py_len_octets(len(text))) + len(text)) + [bv(x, 8) for x in (0x0a, 1, 0, 4, 0, 4)] + ber.len_octets(len(text)) + text
+        body = [bv(x, 8) for x in (2, 1, 1)] + op
+        frame = [bv(0x30, 8)] + ber.len_octets(len(body)) + body
+        trail = [z3.BitVec(f'trail{i}', 8) for i in range(self.ntrail)]
+        return {'frame': frame, 'trail': trail}
+
+    def execute(self, inp):
+        frame, trail = inp['frame'], inp['trail']
+        n = len(frame)
+        cuts = sorted({c for c in (1, 2, 5, 8191, 8192, 8193, n - 1) if 0 < c < n})
+        return {'exact': self.dec(frame), 'with': [self.dec(frame + trail[:j]) for j in range(1, len(trail) + 1)], 'prefix': [self.dec(frame[:k]) for k in cuts], 'cuts': cuts}
+
+    def oracle(self, inp, out):
+        if out[0] == 'panic':
+            return [('no panic on a well-formed frame or its prefixes', FALSE)]
+        res = out[1]; obs = []
+        r0, left0 = res['exact']
+        ok0 = r0.variant == 'Ok' and r0.fields[0].variant == 'Some'
+        obs.append(('a complete well-formed frame is delivered', z3.BoolVal(ok0)))
+        obs.append(('the frame is consumed entirely', z3.BoolVal(left0 == 0)))
+        for j, (r, left) in enumerate(res['with'], 1):
+            ok = r.variant == 'Ok' and r.fields[0].variant == 'Some'
+            obs.append((f'frame followed by {j} more byte(s) is delivered', z3.BoolVal(ok)))
+            obs.append((f'bytes of the next message are not consumed ({j} following)', z3.BoolVal(left == j)))
+        for k, (r, left) in zip(res['cuts'], res['prefix']):
+            nm = r.variant == 'Ok' and r.fields[0].variant == 'None'
+            obs.append(('a proper prefix of a frame is answered with need-more', z3.BoolVal(nm)))
+            obs.append(('need-more leaves the buffer untouched', z3.BoolVal(left == k)))
+        return obs
+
+    def case(self, cinp):
+        return {'cmd': 'prefixes', 'frame': ints(cinp['frame']), 'trail': ints(cinp['trail']), 'cuts': [1, 2, 5, 8191, 8192, 8193, len(cinp['frame']) - 1]}
+
+    def native_outcome(self, cinp, j):
+        if j['outcome'] == 'panic':
+            return native_panic(j)
+        v = j['value']
+        conv = lambda x: native_decode_outcome({'outcome': 'ok', 'value': x})[1]
+        n = len(cinp['frame'])
+        cuts = sorted({c for c in (1, 2, 5, 8191, 8192, 8193, n - 1) if 0 < c < n})
+        return ('ret', {'exact': conv(v['exact']), 'with': [conv(x) for x in v['with']], 'prefix': [conv(v['prefix'][k]) for k in cuts], 'cuts': cuts})
+
+    def summary(self, out, model=None):
+        if out[0] == 'panic': return {'panic': out[1].msg}
+        res = out[1]
+        return {'exact': decode_summary(('ret', res['exact']), model).get('r'), 'left_after': [x[1] for x in res['with']], 'prefix': [decode_summary(('ret', x), model).get('r') for x in res['prefix']]}
+
+    def in_summary(self, inp, model=None):
+        return {'frame bytes': len(inp['frame']), 'following bytes': len(inp['trail'])}
+
+    def concrete_vectors(self, rng):
+        return []
+
 def body(chk):
     quick = chk.tier == 'quick'
     for n in ((1, 2, 3, 4, 5, 6) if quick else tier_param('C06', (1, 2, 3, 4, 5, 6, 7))):
@@ -133,9 +200,12 @@ def body(chk):
         if form == 1 and len(ber.py_encode(SKELETONS[0][1])) - 2 >= 256:
             continue
         run_lane(chk, PrefixStability, (0, 2, form), bounds={'frame': SKELETONS[0][0] + f' with {form} long-form outer length octets', 'following bytes': 2}, selftest=False, need_regions=('delivered',))
+    for size in ((9000,) if quick else (9000, 70000)):
+        run_lane(chk, LargeFrame, (size, 2), bounds={'frame': f'bind response with a {size}-byte diagnostic message (beyond the 8 KiB read buffer' + (' and beyond 64 KiB)' if size > 65536 else ')'), 'following bytes': 2,
+                                                     'prefix cuts': [1, 2, 5, 8191, 8192, 8193, 'n-1']}, selftest=False, need_regions=('delivered',))
     chk.assumptions += [
         "tokio_util::codec::Framed's read loop is trusted: it calls decode() on the accumulated buffer after every read and again after every item; under F1-F3 the delivered sequence is independent of chunking",
-        'frames larger than the stated shapes are outside the bound; length arithmetic for large frames is the C07 length kernel (all usize)',
+        'frames other than the stated shapes (small skeletons, and one large frame of 9000 (70000) bytes) are outside the bound; length arithmetic for large frames is the C07 length kernel (all usize)',
         'message skeletons: concrete structure, every primitive content byte symbolic, except that control types (LDAPOIDs) are ASCII: the decoder rejects a control whose type is not text, and the property speaks of well-formed messages',
     ]
 
